@@ -139,6 +139,8 @@ structure CacheSlot where
 structure St where
   handles : Handles.St := Handles.init 0
   caches : List CacheSlot := []
+  buckets : List (String × Bucket.TB) := []
+  limiters : List (String × Bucket.RL) := []
 
 def findCache (st : St) (n : String) : Option CacheSlot := st.caches.find? (·.name == n)
 def setCache (st : St) (slot : CacheSlot) : St :=
@@ -150,6 +152,56 @@ def showRes : Lru.Res Nat → String
   | .miss => "miss"
 
 def sec (n : Nat) : Nat := n * 1000000000
+
+def showRat (q : Rat) : String := s!"{q.num}/{q.den}"
+
+def mkRat (n d : Nat) : Rat := (n : Rat) / (d : Rat)
+
+def b01 (b : Bool) : String := if b then "1" else "0"
+
+def rlCmd (st : St) : List String → St × String
+  | ["bucket", name, n, d, burst, now] =>
+    match n.toNat?, d.toNat?, burst.toNat?, now.toNat? with
+    | some n, some d, some burst, some now =>
+      ({ st with buckets := (name, Bucket.TB.new (mkRat n d) burst now) :: st.buckets.filter (·.1 != name) }, "ok")
+    | _, _, _, _ => (st, "bad-op")
+  | ["allow", name, now] =>
+    match st.buckets.find? (·.1 == name), now.toNat? with
+    | some (_, b), some now =>
+      let r := b.allow now
+      ({ st with buckets := (name, r.1) :: st.buckets.filter (·.1 != name) }, b01 r.2)
+    | _, _ => (st, "bad-op")
+  | ["new", name, now, g, ip, ipb, pc, pcb, rl, wl, rd, mnt, ci] =>
+    match now.toNat?, g.toNat?, ip.toNat?, ipb.toNat?, pc.toNat?, pcb.toNat?, rl.toNat?, wl.toNat?, rd.toNat?, mnt.toNat?, ci.toNat? with
+    | some now, some g, some ip, some ipb, some pc, some pcb, some rl, some wl, some rd, some mnt, some ci =>
+      let r : Bucket.RL :=
+        { global := Bucket.TB.new (g : Rat) g now,
+          perIP := Bucket.Keyed.new (ip : Rat) ipb ci now,
+          perConn := Bucket.Keyed.new (pc : Rat) pcb 1000000000000000000000 now,
+          perConnEnabled := decide (pc > 0),
+          perOp := [("read_large", Bucket.Keyed.new (rl : Rat) Gen.opBurstReadLarge ci now),
+                    ("write_large", Bucket.Keyed.new (wl : Rat) Gen.opBurstWriteLarge ci now),
+                    ("readdir", Bucket.Keyed.new (rd : Rat) Gen.opBurstReaddir ci now),
+                    ("mount", Bucket.Keyed.new (mkRat mnt 60) Gen.opBurstMount ci now)] }
+      ({ st with limiters := (name, r) :: st.limiters.filter (·.1 != name) }, "ok")
+    | _, _, _, _, _, _, _, _, _, _, _ => (st, "bad-op")
+  | ["request", name, ip, conn, now] =>
+    match st.limiters.find? (·.1 == name), now.toNat? with
+    | some (_, r), some now =>
+      let a := r.allowRequest Gen.allowRequestGlobalFirst ip conn now
+      ({ st with limiters := (name, a.1) :: st.limiters.filter (·.1 != name) }, b01 a.2)
+    | _, _ => (st, "bad-op")
+  | ["op", name, ip, op, now] =>
+    match st.limiters.find? (·.1 == name), now.toNat? with
+    | some (_, r), some now =>
+      let a := r.allowOp ip op now
+      ({ st with limiters := (name, a.1) :: st.limiters.filter (·.1 != name) }, b01 a.2)
+    | _, _ => (st, "bad-op")
+  | ["global", name, now] =>
+    match st.limiters.find? (·.1 == name), now.toNat? with
+    | some (_, r), some now => (st, s!"{(r.global.level now + 1/2).floor}/1")
+    | _, _ => (st, "bad-op")
+  | _ => (st, "bad-op")
 
 def lruCmd (st : St) : List String → St × String
   | ["newattr", name, cap, ttl] =>
@@ -245,6 +297,7 @@ def step (st : St) (line : String) : St × String :=
   | "auth" :: args => (st, authCmd args)
   | "handles" :: args => handlesCmd st args
   | "lru" :: args => lruCmd st args
+  | "rl" :: args => rlCmd st args
   | ["reset"] => ({}, "ok")
   | _ => (st, "bad-op")
 
